@@ -155,3 +155,20 @@ Proof.
   intros Hok Hf. destruct (ImpProofsK.imp_fastq_Reader fuel cur _ TEOF Hf) as (s' & out & E & HF).
   exists s', out. split; [exact E|]. rewrite <- (FastqProofsB.roundtrip rs Hok). exact HF.
 Qed.
+
+Theorem pre_post_order_src fuel t : (2 * Newick.size t + 2 < fuel)%nat ->
+  imp_newick_Node_PreOrder fuel (ImpProofsI.node_of t) = Ret (map ImpProofsI.nd (NewickSpec.preorder t))
+  /\ imp_newick_Node_PostOrder fuel (ImpProofsI.node_of t) = Ret (map ImpProofsI.nd (NewickSpec.postorder t)).
+Proof. exact (traverse_orders_src fuel t). Qed.
+
+From Bio.Proofs Require ImpProofsU.
+Theorem pre_post_order_stop_src p fuel t : (2 * Newick.size t + 2 < fuel)%nat ->
+  imp_newick_Node_PreOrder_stop p fuel (ImpProofsI.node_of t)
+  = Ret (ImpProofsU.take_stop p (map ImpProofsI.nd (NewickSpec.preorder t)))
+  /\ imp_newick_Node_PostOrder_stop p fuel (ImpProofsI.node_of t)
+     = Ret (ImpProofsU.take_stop p (map ImpProofsI.nd (NewickSpec.postorder t))).
+Proof.
+  intros Hf. split.
+  - apply (ImpProofsU.imp_traverse_stop_ok p fuel true t _ Hf). apply NewickProofs.traverse_preorder.
+  - apply (ImpProofsU.imp_traverse_stop_ok p fuel false t _ Hf). apply NewickProofs.traverse_postorder.
+Qed.
